@@ -1254,6 +1254,10 @@ class Executor:
             return n != 0 if isinstance(n, int) else n != 0
         if isinstance(v, (Obj, Func, Module)):
             return True
+        if isinstance(v, SetV):
+            # a set is true exactly when it has an element
+            x = z3.Const("nonempty!%d" % len(self.trace), v.arr.sort().domain())
+            return z3.Exists([x], z3.Select(v.arr, x))
         raise OutOfSubset("truth value of %r" % (v,))
 
     def e_Attribute(self, e, env):
